@@ -40,7 +40,7 @@ def strategy(tier, phase):
         names = [n for n in names if n not in EXCLUDED_OPS]
     max_ops = 40 if tier == "quick" else 120
     return st.fixed_dictionaries(
-        {"setup": st.integers(0, 1), "safe": st.just(phase == "excl"), "ops": st.lists(U.op_strategy(names), min_size=1, max_size=max_ops)}
+        {"setup": st.integers(0, 1), "safe": st.just(phase == "excl"), "ops": st.sampled_from([2, 4, 8, 14, 24, max_ops]).flatmap(lambda n: st.lists(U.op_strategy(names), min_size=max(1, n // 2), max_size=n))}
     )
 
 
